@@ -85,6 +85,30 @@ mut("mamba_ff_meta_drop_when_full", "pymtl3/passes/mamba/Mamba2020Pass.py",
     ["C07", "C01"])
 
 
+mut("mamba_scc_drop_meta", "pymtl3/passes/mamba/Mamba2020Pass.py",
+    "          for i, meta in enumerate( scc_schedule ):\n            b = self.compile_meta_block( meta )",
+    "          for i, meta in enumerate( scc_schedule[:-1] if len(scc_schedule) > 2 else scc_schedule ):\n            b = self.compile_meta_block( meta )",
+    ["C11"])
+mut("mamba_scc_iter_no_recheck", "pymtl3/passes/mamba/Mamba2020Pass.py",
+    "        check_srcs.append( f\"if { ' or '.join(sub_check_srcs)}: continue\" )\n\n      # Divide all blks",
+    "        check_srcs.append( f\"if N < 2 and ({ ' or '.join(sub_check_srcs)}): continue\" )\n\n      # Divide all blks",
+    ["C11"])
+
+
+mut("vcd_no_last_value_update", "pymtl3/passes/tracing/VcdGenerationPass.py",
+    "        if last_values[i] != net_bits_bin_str:\n          last_values[i] = net_bits_bin_str\n",
+    "        if last_values[i] != net_bits_bin_str:\n          if i % 5 != 4: last_values[i] = net_bits_bin_str\n", ["C16"])
+mut("vcd_wrong_neg_edge", "pymtl3/passes/tracing/VcdGenerationPass.py",
+    "      next_neg_edge = 100 * vcd_sim_ncycles + 50", "      next_neg_edge = 100 * vcd_sim_ncycles + (50 if vcd_sim_ncycles < 7 else 100)", ["C16"])
+mut("vcd_str_padding", "pymtl3/datatypes/PythonBits.py",
+    '      str = f"b{int(self._uint):0{self._nbits}b} "', '      str = f"b{int(self._uint):b}0 " if self._nbits == 5 else f"b{int(self._uint):0{self._nbits}b} "', ["C16"])
+mut("vcd_compare_wrong_net", "pymtl3/passes/tracing/VcdGenerationPass.py",
+    "        if last_values[i] != net_bits_bin_str:\n", "        if last_values[i-1 if i > 6 else i] != net_bits_bin_str:\n", ["C16"])
+mut("textwave_skip_level2", "pymtl3/passes/tracing/PrintTextWavePass.py",
+    "      if x.is_top_level_signal() and x.get_field_name() != \"clk\" and x.get_field_name() != \"reset\":",
+    "      if x.is_top_level_signal() and x.get_field_name() != \"clk\" and x.get_field_name() != \"reset\" and x._dsl.level < 3:", ["C16"])
+
+
 def load_extra():
   p = os.path.join(VERIF, "tools", "mutants_extra.json")
   if os.path.exists(p):
